@@ -4,6 +4,11 @@ manifest is valid at every commit)."""
 import json, os, sys
 
 CHECKS = {
+ "C11": ("model_checking",
+         "enumeration of source tuples x explicit-state search over request sequences on the real Splicer against a reference merge",
+         "All tuples of up to 2 sources with up to 3 items and 3 sources with up to 2 items (quick, 16 572 tuples) / all tuples of up to 3 sources with up to 3 items (thorough, 621 436), timestamps from {missing,t1,t2,t3} in every order; per tuple a breadth-first search over reference states (items delivered) with request sizes {0,1,2,3,5}, every transition replayed on a fresh Splicer, every continuation asked twice, start offsets 1..3 on the initial feed, and the continuation returned at exhaustion harvested once.",
+         "Trusted: the reference merge and the synthetic Container sources in checks/c11; splicer.VerifNewSplicer (accessor) builds the state NewSplicer leaves behind. NewSplicer's own fetch fan-out is covered by C08's scenarios, not here.",
+         "DESIGN.md §3 C11"),
  "C10": ("model_checking",
          "enumeration of page-chain layouts x explicit-state search over request sequences on the real Collection, against the lazily generated true sequence",
          "7 636 chains (quick; 2 kinds x 4 root-item variants x page vectors up to 3 pages of size 0..2 x 3 placements x 6+ tails incl. cycles and failing pages) / about 180 000 (thorough, 4 pages of size 0..3); per chain a breadth-first search over reference states (items delivered) with request sizes {0,1,2,3,4,7}, every transition replayed through the continuation protocol on a fresh Collection over the in-memory peer, plus unmerged request pairs. Delivered items are a prefix of the truth, at most one justified error item, no short or over-long answers, nothing lost at the end; non-terminating cases are caught by a worker watchdog.",
